@@ -308,6 +308,7 @@ fn pair_laws(vals: &[DIDUrl], rep: &mut Report) {
 fn replay_chunk(cases: &[Value], rep: &mut Report) {
   let mut accepted = Vec::new();
   for case in cases {
+    note_case(&case["row"]);
     let kind = s(&case["row"]["kind"]);
     for variant in 0..2 {
       match kind {
